@@ -87,3 +87,27 @@ Theorem C17_resolved_output_directory_is_where_the_kernel_goes :
     kwalk klinks fs true (k_start cwd (is_abs outdir)) (split_slash outdir) = KErr ELOOP.
 Proof. exact eval_symlinks_is_kernel_resolution. Qed.
 Print Assumptions C17_resolved_output_directory_is_where_the_kernel_goes.
+
+(* Metadata.  The extraction makes no chmod/chown/utimes call: in the model the permission-bit
+   table [m] is not an argument of any operation.  Consequently the bits of every object outside
+   the output directory are what they were (an object there is neither created nor removed, and
+   keeps its kind), and so are the bits of every object that existed before, anywhere; objects the
+   extraction creates get the creation defaults (mode_of / default_mode).  The correspondence check
+   compares the bits of every sandbox entry, inside and outside. *)
+Theorem C17_permission_bits_outside_unchanged :
+  forall fs cwd outdir pathflag roots root fs' res,
+    (forall k, look fs (Nat.iter k (@removelast name) cwd) = Some NDir) ->
+    eval_symlinks_str fs cwd outdir = Some root ->
+    extract_cmd true fs cwd outdir pathflag roots = (fs', res) ->
+    forall (m : modes) p, ~ under (phys_of cwd root) p -> mode_of m fs' p = mode_of m fs p.
+Proof. exact modes_outside_unchanged. Qed.
+Print Assumptions C17_permission_bits_outside_unchanged.
+
+Theorem C17_permission_bits_of_existing_objects_unchanged :
+  forall fs cwd outdir pathflag roots root fs' res,
+    (forall k, look fs (Nat.iter k (@removelast name) cwd) = Some NDir) ->
+    eval_symlinks_str fs cwd outdir = Some root ->
+    extract_cmd true fs cwd outdir pathflag roots = (fs', res) ->
+    forall (m : modes) p, look fs p <> None -> mode_of m fs' p = mode_of m fs p.
+Proof. exact modes_of_existing_objects_unchanged. Qed.
+Print Assumptions C17_permission_bits_of_existing_objects_unchanged.
